@@ -307,6 +307,40 @@ def run(ctx: Ctx):
             why = f"reward = env.get_reward(batchify(<un-augmented clone of td>, k), policy(...)['actions']): original instance {on_orig}, policy actions {acts}; the reported reward derives from it: {rep}"
         ctx.ob("C15.c", f"{cn}._inner:reward-on-original", ok, fi.loc, why + ("" if ok else " -- the reward must be recomputed on the un-augmented clone with the policy's actions"),
                construct=f"{cn}._inner:reward-source")
+    # ---- the recomputation `env.get_reward(<reset state>, actions)` is the objective only for envs whose _get_reward is a function of
+    #      the INSTANCE and the actions.  Envs that accumulate the objective in the state while stepping have nothing to read in a
+    #      freshly reset state.
+    from ..envs import EnvA as _EnvA
+    from ..tables import routing as _T
+    acc_envs = {}
+    for cname_, path_ in _T.ALL_ENVS.items():
+        env_ = _EnvA(ctx.repo, path_, cname_)
+        try:
+            r_, st_ = env_.slot("_get_reward"), env_.slot("_step")
+        except AnalysisError:
+            continue
+        if r_ is None or st_ is None or st_.td is None or not isinstance(r_.fr.ret, vg.S):
+            continue
+        written = {k for k, v in st_.td.cells.items() if not (nf.strip(v).op == "cell0" and nf.strip(v).args[1] == k)}
+        acc = sorted((vg.cells_of(r_.fr.ret) & written) - {"action"})
+        if acc:
+            acc_envs[cname_] = acc
+    ctx.extra["envs_with_state_accumulated_objective"] = acc_envs
+    for cn in ("GreedyEval", "AugmentationEval", "GreedyMultiStartEval", "GreedyMultiStartAugmentEval"):
+        fi = ctx.repo.get_function(EV, f"{cn}._inner")
+        ctx.fn(fi)
+        ite = vg.Interp(ctx.repo, fi.cls, inline_policy=lambda f, a: False)
+        fre = ite.run_function(fi)
+        ret = fre.ret
+        items = ret.items if isinstance(ret, vg.Tup) else (list(ret.args) if isinstance(ret, vg.S) and ret.op == "tuple" else [])
+        recomputed = len(items) == 2 and isinstance(items[1], vg.S) and any(n.op == "meth" and n.args[1] == "get_reward" for n in vg.walk(items[1]))
+        from_rollout = len(items) == 2 and isinstance(items[1], vg.S) and any(n.op == "sub" and vg.is_const(n.args[1], "reward") for n in vg.walk(items[1]))
+        ok = not (recomputed and not from_rollout and acc_envs)
+        ctx.ob("C15.c", f"{cn}._inner:reward-valid-for-state-accumulated-objectives", ok, fi.loc,
+               "the reported reward is the rollout's own reward (or no env accumulates its objective in the state)" if ok else
+               f"the reported reward is env.get_reward(<freshly reset state>, actions); {len(acc_envs)} envs compute their objective from cells that _step accumulates "
+               f"({', '.join(f'{k}: {v[0]}' for k, v in sorted(acc_envs.items()))}): for those the reset state holds no objective and the reported reward is not the objective of the returned actions",
+               construct=f"{cn}._inner:reward-from-reset-state")
     # shared rules (C12 factor/best-of, C17 loader order) are run again under this property
     from . import C12, C17
     n0 = len(ctx.obligations)
